@@ -125,6 +125,9 @@ def const_value(p):
     return None
 
 
+SHARED_STRATS = {}
+
+
 class Interp:
     def __init__(self):
         self.model = None
@@ -185,7 +188,13 @@ class Interp:
 
     def op_stratify(self, op):
         cls = {"plain": Stratification, "age": AgeStratification, "strain": StrainStratification}[op["kind"]]
+        if op.get("share") is not None and op["share"] in SHARED_STRATS:
+            # the same Stratification OBJECT applied to another model (scenario models commonly share them)
+            self.model.stratify_with(SHARED_STRATS[op["share"]])
+            return {"n_comps": len(self.model.compartments), "n_flows": len(self.model.flows)}
         s = cls(op["name"], list(op["strata"]), list(op["comps"]))
+        if op.get("share") is not None:
+            SHARED_STRATS[op["share"]] = s
         if op.get("split") is not None:
             s.set_population_split({k: py_expr(e) for k, e in op["split"]})
         for d in op.get("flow_adj") or []:
